@@ -260,6 +260,45 @@ fn add_vftable_refs(t: &mut Tape, prog: &mut Prog) {
     }
 }
 
+/// Two or three further modules import one type by name and each carry an impl block for it (ignored
+/// today; whatever is done with them must not depend on the order the modules are walked in).
+fn add_foreign_impls(t: &mut Tape, prog: &mut Prog) {
+    let owners: Vec<(usize, String)> = prog.mods.iter().enumerate().flat_map(|(mi, m)| m.types().filter(|t| t.vis).map(move |t| (mi, t.name.clone()))).collect();
+    if owners.is_empty() {
+        return;
+    }
+    let (mi, tn) = owners[t.below(owners.len() as u64) as usize].clone();
+    let n = 2 + t.below(2);
+    for k in 0..n {
+        let mut up = prog.mods[mi].path.clone();
+        up.push(tn.clone());
+        let path = vec![format!("zimp{k}")];
+        if prog.mods.iter().any(|m| m.path == path) {
+            continue;
+        }
+        prog.mods.push(Mod {
+            path,
+            uses: vec![up],
+            impls: vec![Impl {
+                ty: tn.clone(),
+                funcs: vec![Func {
+                    more: vec![],
+                    sty: 0,
+                    vis: true,
+                    name: format!("zext{k}"),
+                    doc: vec![],
+                    args: vec![Arg::ConstSelf],
+                    ret: None,
+                    addr: Some(Num::d(0x6100 + 16 * k as i128)),
+                    index: None,
+                    cc: None,
+                }],
+            }],
+            ..Default::default()
+        });
+    }
+}
+
 fn hazard_cfg(t: &mut Tape) -> GenCfg {
     let w = if t.chance(1, 2) { 8 } else { 4 };
     let mut cfg = GenCfg::rich(w);
@@ -278,7 +317,7 @@ impl Prop for Schedules {
         "C09/schedules".into()
     }
     fn rule(&self) -> String {
-        format!("multi-module programs from the rich generator, one in five from the C11 generator (one short name defined in several modules, competing by-name and whole-module imports, an extern value of that name) (by-value chains, bases with vftables, types pointing to generated <T>Vftable items through by-name and whole-module imports, cross-module imports, enum/extern-typed fields, impl/vftable signatures over user types). Every program is built: 4x with hash order, under Sorted/Reverse/6 set-dependent seeded schedules, under every priority permutation of its user items when it has <= {} of them ({} sampled permutations otherwise), and under every permutation of add_module order (<= 4 modules; 24 sampled beyond). Oracle: all runs agree on Ok/Err and on the bytes of every output file. Non-trivial: >= 3 user items and >= 2 resolution rounds under some schedule. References to generated <T>Vftable names from signatures are not generated (known finding F06, demonstrated by its own replay)", self.exhaustive_upto, self.sampled)
+        format!("multi-module programs from the rich generator, one in five from the C11 generator (one short name defined in several modules, competing by-name and whole-module imports, an extern value of that name) (by-value chains, bases with vftables, types pointing to generated <T>Vftable items through by-name and whole-module imports, several modules that import one type by name and carry an impl block for it, cross-module imports, enum/extern-typed fields, impl/vftable signatures over user types). Every program is built: 4x with hash order, under Sorted/Reverse/6 set-dependent seeded schedules, under every priority permutation of its user items when it has <= {} of them ({} sampled permutations otherwise), and under every permutation of add_module order (<= 4 modules; 24 sampled beyond). Oracle: all runs agree on Ok/Err and on the bytes of every output file. Non-trivial: >= 3 user items and >= 2 resolution rounds under some schedule. References to generated <T>Vftable names from signatures are not generated (known finding F06, demonstrated by its own replay)", self.exhaustive_upto, self.sampled)
     }
     fn gen(&self, t: &mut Tape) -> Case {
         // one case in five: a small module set in which one short name is defined in several
@@ -296,6 +335,9 @@ impl Prop for Schedules {
         }
         if t.chance(1, 4) {
             add_vftable_refs(t, &mut prog);
+        }
+        if t.chance(1, 5) {
+            add_foreign_impls(t, &mut prog);
         }
         Case { prog, w, seed: t.u64() }
     }
@@ -356,6 +398,9 @@ impl Prop for FreshProcess {
         }
         if t.chance(1, 4) {
             add_vftable_refs(t, &mut prog);
+        }
+        if t.chance(1, 5) {
+            add_foreign_impls(t, &mut prog);
         }
         Case { prog, w, seed: t.u64() }
     }
